@@ -20,7 +20,7 @@ import numpy
 from .. import engine, fpx
 from ..translate import blocks
 
-THEOREMS = ["vecsum_value", "renorm_eager_value", "renorm_functional_value", "add_sub_value", "renorm_two_terms_normal", "multiply_exact", "square_exact"]
+THEOREMS = ["vecsum_value", "renorm_eager_value", "renorm_functional_value", "add_sub_value", "renorm_two_terms_normal", "multiply_exact", "square_exact", "twoProdSpec_ok", "multiply_exact_dekker", "square_exact_dekker"]
 SEARCHED = ["non-overlap / decreasing magnitude after at most two passes", "fast=True variants (decreasing-magnitude precondition)",
             "size-limited variants", "multiply / square: error < 1 ulp of the leading term", "overflow-free hypothesis"]
 TRUSTED = [
